@@ -50,6 +50,7 @@ CONFORMANCE = {"_compare/num": [{"operator": "<", "left_operand": 1, "right_oper
 def run(ctx):
     res = PropResult('C10')
     K.k1_block(res, ctx, MOD, K1, 'C10.')
+    K.ord_lex(res, 'C10')
     _laws(res)
     K.canary_contract(res, MOD, '_compare/num', 'numeric_exact',
                       'implies(is_num(left_operand) and is_num(right_operand), result == opres(operator, '
